@@ -20,16 +20,24 @@ def distances(metric, elem_xyz, elem_lonlat_deg, q_xyz=None, q_lonlat_deg=None):
         B = np.asarray(elem_xyz)[None, :, :]
         c = np.cross(A, B)
         return np.arctan2(np.linalg.norm(c, axis=-1), np.sum(A * B, axis=-1))
-    if metric == "chord":
+    if metric in ("chord", "xyz_chebyshev", "xyz_manhattan"):
         A = np.asarray(q_xyz)[:, None, :]
         B = np.asarray(elem_xyz)[None, :, :]
-        return np.linalg.norm(A - B, axis=-1)
-    if metric == "planar":
+        if metric == "chord":
+            return np.linalg.norm(A - B, axis=-1)
+        if metric == "xyz_chebyshev":
+            return np.max(np.abs(A - B), axis=-1)
+        return np.sum(np.abs(A - B), axis=-1)
+    if metric in ("planar", "planar_chebyshev", "planar_manhattan"):
         ql = np.deg2rad(np.asarray(q_lonlat_deg, dtype=float))
         el = np.deg2rad(np.asarray(elem_lonlat_deg, dtype=float))
-        dlon = ql[:, None, 0] - el[None, :, 0]
-        dlat = ql[:, None, 1] - el[None, :, 1]
-        return np.sqrt(dlon * dlon + dlat * dlat)
+        dlon = np.abs(ql[:, None, 0] - el[None, :, 0])
+        dlat = np.abs(ql[:, None, 1] - el[None, :, 1])
+        if metric == "planar":
+            return np.sqrt(dlon * dlon + dlat * dlat)
+        if metric == "planar_chebyshev":
+            return np.maximum(dlon, dlat)
+        return dlon + dlat
     raise ValueError(metric)
 
 
